@@ -126,7 +126,8 @@ fn c15_t_tileset_without_embedded_pixels() {
     kani::assume(rd16(&buf, 12) >= 1 && rd16(&buf, 14) >= 1);
     let ts = match crate::tileset::Tileset::<RawPixels>::parse_chunk(&buf, PixelFormat::Rgba) {
         Ok(t) => t,
-        Err(_) => {
+        Err(e) => {
+            core::mem::forget(e);
             assert!(false, "header-only tileset chunk decodes");
             return;
         }
